@@ -152,6 +152,7 @@ def prove_bv(lm, bound, body, case, timeout_ms):
         if n not in case:
             s.add(z3.ULE(z3.BitVec(sv.z.decl().name() + '!bv', f.sort().size() if False else 192), z3.BitVecVal(bounds[sv.z.decl().name()], 192)))
     s.add(z3.Not(f))
-    r = s.check()
+    from .discharge import zcheck
+    r = zcheck(s, timeout_ms)
     return dict(status='proved' if r == z3.unsat else ('refuted' if r == z3.sat else 'unknown'), backend='z3-bv',
                 smt_model=str(s.model())[:500] if r == z3.sat else None)
